@@ -25,6 +25,8 @@ def to_str(t):
     if k == 'c':
         v = t[1]
         return repr(float(v)) if v >= 0 else '(%r)' % float(v)
+    if k == 'ci':
+        return '(%rj)' % float(t[1])
     if k in ('add', 'sub', 'mul', 'div'):
         op = dict(add='+', sub='-', mul='*', div='/')[k]
         return '(%s %s %s)' % (to_str(t[1]), op, to_str(t[2]))
@@ -80,6 +82,8 @@ def eval_mp(t, x, mp):
         return x
     if k == 'c':
         return mp.mpf(t[1])
+    if k == 'ci':
+        return mp.mpc(0, t[1])
     if k == 'add':
         return eval_mp(t[1], x, mp) + eval_mp(t[2], x, mp)
     if k == 'sub':
@@ -103,6 +107,10 @@ def eval_mp(t, x, mp):
             return mp.exp(a) - 1 if abs(a) > mp.mpf('1e-5') else mp.expm1(a)
         if name == 'log1p':
             return mp.log(1 + a)
+        if name in ('sin', 'cos', 'tan', 'cot', 'sec', 'csc') and abs(a) > 1e8:
+            raise OverflowError('trigonometric argument too large for a meaningful reference value')
+        if name in ('exp', 'sinh', 'cosh', 'tanh', 'expm1', 'exp2') and abs(mp.re(a)) > 1e8:
+            raise OverflowError('exponential argument too large')
         return getattr(mp, MP_NAME[name])(a)
     raise ValueError(t)
 
@@ -119,6 +127,8 @@ def eval_mp_perturbed(t, x, mp, target, factor, _ctr=None):
         v = x
     elif k == 'c':
         v = mp.mpf(t[1])
+    elif k == 'ci':
+        v = mp.mpc(0, t[1])
     elif k in ('add', 'sub', 'mul', 'div'):
         a = eval_mp_perturbed(t[1], x, mp, target, factor, _ctr)
         b = eval_mp_perturbed(t[2], x, mp, target, factor, _ctr)
@@ -166,14 +176,17 @@ def scan(t, pts):
             return pts
         if k == 'c':
             return np.full(pts.shape, complex(n[1]))
+        if k == 'ci':
+            return np.full(pts.shape, complex(0, n[1]))
         with np.errstate(all='ignore'):
             if k in ('add', 'sub', 'mul', 'div'):
                 a, b = ev(n[1]), ev(n[2])
                 if k == 'div':
-                    # sign change / closeness to zero of the denominator along the scan
-                    if np.any(np.abs(b) < 1e-8 * (1 + np.abs(a))) or \
-                            (np.min(b.real) < 0 < np.max(b.real) and np.min(np.abs(b)) < 0.5 * np.max(np.abs(b.imag)) + 1e-300
-                             or (np.all(np.abs(b.imag) < 1e-300) and np.min(b.real) < 0 < np.max(b.real))):
+                    # the denominator vanishes, comes close to zero relative to its own range, or (being real)
+                    # changes sign along the scanned points
+                    absb = np.abs(b)
+                    if np.any(absb < 1e-8 * (1 + np.abs(a))) or np.min(absb) < 1e-3 * np.max(absb) or \
+                            (np.all(np.abs(b.imag) <= 1e-300) and np.min(b.real) < 0 < np.max(b.real)):
                         bad('denominator changes sign or vanishes')
                     v = a / b
                 elif k == 'add':
@@ -184,8 +197,8 @@ def scan(t, pts):
                     v = a * b
             elif k == 'powi':
                 a = ev(n[1])
-                if n[2] < 0 and (np.any(np.abs(a) < 1e-8) or
-                                 (np.all(np.abs(a.imag) < 1e-300) and np.min(a.real) < 0 < np.max(a.real))):
+                if n[2] < 0 and (np.any(np.abs(a) < 1e-8) or np.min(np.abs(a)) < 1e-3 * np.max(np.abs(a)) or
+                                 (np.all(np.abs(a.imag) <= 1e-300) and np.min(a.real) < 0 < np.max(a.real))):
                     bad('negative integer power of a base that vanishes')
                 v = a ** int(n[2])
             elif k == 'powr':
@@ -236,6 +249,8 @@ def _eval_c(t, z):
         return z
     if k == 'c':
         return complex(t[1])
+    if k == 'ci':
+        return complex(0, t[1])
     if k == 'add':
         return _eval_c(t[1], z) + _eval_c(t[2], z)
     if k == 'sub':
@@ -260,7 +275,7 @@ def neighbourhood_ok(t, x, a, b, frac=0.5):
         with np.errstate(all='ignore'):
             for n in nodes(t):
                 k = n[0]
-                if k in ('x', 'c', 'add', 'sub', 'mul'):
+                if k in ('x', 'c', 'ci', 'add', 'sub', 'mul'):
                     continue
                 arg = n[2] if k in ('div', 'fn') else n[1]
                 if k == 'powi' and n[2] >= 0:
